@@ -519,11 +519,18 @@ func (c *Conn) ResetPollerEvent() {
 	p := c.p
 	g := p.g
 	fd := c.fd
-	if g.isOneshot && !c.closed {
-		if len(c.writeList) == 0 {
-			_ = p.resetRead(fd)
-		} else {
-			_ = p.modWrite(fd)
+	if g.isOneshot {
+		// Look at the write list and re-arm under the mutex: a Write running in
+		// between would arm the writing event and then be overridden by a
+		// stale "read only".
+		c.mux.Lock()
+		if !c.closed {
+			if len(c.writeList) == 0 {
+				_ = p.resetRead(fd)
+			} else {
+				_ = p.modWrite(fd)
+			}
 		}
+		c.mux.Unlock()
 	}
 }
